@@ -2,7 +2,11 @@ package space
 
 import (
 	"bytes"
+	"encoding/hex"
 	"fmt"
+	"strings"
+
+	"filippo.io/edwards25519"
 
 	"github.com/anyproto/any-sync/commonspace/object/accountdata"
 	"github.com/anyproto/any-sync/commonspace/object/acl/list"
@@ -71,87 +75,219 @@ func (b *bij) check(real, term string) bool {
 	return true
 }
 
+// ---- one-to-one: identities, related identities, derivations -----------------------------------
+
+type ident struct {
+	label string
+	priv  crypto.PrivKey // nil for public-only identities
+	pub   crypto.PubKey
+	raw   []byte
+}
+
+func identOf(label string, k crypto.PrivKey) ident {
+	raw, _ := k.GetPublic().Raw()
+	return ident{label, k, k.GetPublic(), raw}
+}
+
+// pubIdent: a public-only identity from raw bytes, if they decode as an Ed25519 point that also
+// converts to X25519
+func pubIdent(label string, raw []byte) (ident, bool) {
+	if _, err := new(edwards25519.Point).SetBytes(raw); err != nil {
+		return ident{}, false
+	}
+	pk, err := crypto.NewSigningEd25519PubKeyFromBytes(raw)
+	if err != nil {
+		return ident{}, false
+	}
+	if _, err := crypto.Ed25519PublicKeyToCurve25519(raw); err != nil {
+		return ident{}, false
+	}
+	return ident{label, nil, pk, raw}, true
+}
+
+// an Edwards point of order 8
+var torsion8, _ = hex.DecodeString("c7176a703d4dd84fba3c0b760d10670f2a2053fa2c39ccc64ec7fd7792ac037a")
+
+// related: identities algebraically or textually close to `of`:
+//   neg     the Edwards negation (same bytes, sign bit of byte 31 flipped): SAME X25519 public key
+//   tors    the point shifted by a point of order 8: same X25519 shared secret with any clamped scalar
+//   prefix  another valid point sharing the first 31 bytes; suffix: sharing the last 31 bytes
+func related(r *corr.Run, of ident) []ident {
+	var out []ident
+	neg := cp(of.raw)
+	neg[31] ^= 0x80
+	if id, ok := pubIdent(of.label+".neg", neg); ok {
+		out = append(out, id)
+	}
+	if p, err := new(edwards25519.Point).SetBytes(of.raw); err == nil {
+		if t, err := new(edwards25519.Point).SetBytes(torsion8); err == nil {
+			if id, ok := pubIdent(of.label+".tors", new(edwards25519.Point).Add(p, t).Bytes()); ok {
+				out = append(out, id)
+			}
+		}
+	}
+	for k := 1; k < 64; k++ {
+		pre := cp(of.raw)
+		pre[31] ^= byte(k)
+		if id, ok := pubIdent(of.label+".prefix", pre); ok {
+			out = append(out, id)
+			break
+		}
+	}
+	for k := 1; k < 64; k++ {
+		suf := cp(of.raw)
+		suf[0] ^= byte(k)
+		if id, ok := pubIdent(of.label+".suffix", suf); ok {
+			out = append(out, id)
+			break
+		}
+	}
+	return out
+}
+
+type deriv struct {
+	who, with ident
+	ti        int
+	pairKey   string // the unordered pair of identities
+	p         payload
+	owner     []byte // the joint identity stated in the header
+	rk, mk    []byte // read key / metadata key as `who` derives them from the ACL root
+	keyErr    error
+}
+
+func pairKeyOf(x, y []byte) string {
+	if bytes.Compare(x, y) <= 0 {
+		return string(x) + "|" + string(y)
+	}
+	return string(y) + "|" + string(x)
+}
+
 func (c *ctxt) oneToOne(bj *bij, keyNo map[string]int) {
 	r := c.r
-	a, b, x := newKey(r), newKey(r), newKey(r)
-	no := func(k crypto.PrivKey) int {
-		raw, _ := k.GetPublic().Raw()
-		if v, ok := keyNo[string(raw)]; ok {
+	a, b, x := identOf("a", newKey(r)), identOf("b", newKey(r)), identOf("x", newKey(r))
+	no := func(raw []byte) int {
+		if v, ok := keyNo["id:"+string(raw)]; ok {
 			return v
 		}
-		keyNo[string(raw)] = len(keyNo) + 1
+		keyNo["id:"+string(raw)] = len(keyNo) + 1
 		return len(keyNo)
 	}
-	viol := func(stream, desc string) {
-		r.Violate(prop, "", stream, desc, []string{fmt.Sprintf("o2o a=%d b=%d x=%d", no(a), no(b), no(x))})
+	montNo := func(raw []byte) int {
+		m, _ := crypto.Ed25519PublicKeyToCurve25519(raw)
+		if v, ok := keyNo["mont:"+string(m)]; ok {
+			return v
+		}
+		keyNo["mont:"+string(m)] = len(keyNo) + 1
+		return len(keyNo)
 	}
+	desc := func(d *deriv) string {
+		return fmt.Sprintf("o2o %s(%d) with %s(%d) type=%d", d.who.label, no(d.who.raw), d.with.label, no(d.with.raw), d.ti)
+	}
+	// who derives with whom: the two honest directions, unrelated third parties, the degenerate self
+	// pair, and RELATED identities of both partners (public-only, so they appear as the partner)
+	pairs := [][2]ident{{a, b}, {b, a}, {a, x}, {x, b}, {a, a}}
+	for _, rb := range related(r, b) {
+		pairs = append(pairs, [2]ident{a, rb})
+		if strings.HasSuffix(rb.label, ".neg") {
+			pairs = append(pairs, [2]ident{x, rb})
+		}
+		r.Count("o2o.related." + strings.TrimPrefix(rb.label, "b."))
+	}
+	for _, ra := range related(r, a) {
+		if strings.HasSuffix(ra.label, ".neg") || strings.HasSuffix(ra.label, ".tors") {
+			pairs = append(pairs, [2]ident{b, ra}, [2]ident{a, ra})
+		}
+	}
+	var ds []*deriv
 	for ti, ty := range []string{spacepayloads.SpaceTypeOneToOne, spacepayloads.SpaceTypeOneToOneAny} {
-		pa, err1 := o2oPayload(a, b.GetPublic(), ty)
-		pb, err2 := o2oPayload(b, a.GetPublic(), ty)
-		if err1 != nil || err2 != nil {
-			viol("space.o2o.construct", fmt.Sprintf("constructor failed: %v / %v", err1, err2))
-			return
-		}
-		if !pa.same(pb) {
-			viol("space.o2o.symmetric.oracle", fmt.Sprintf("type %s: the two parties derive different payloads: ids %s / %s, acl %s / %s, settings %s / %s", ty, pa.hid, pb.hid, pa.aid, pb.aid, pa.sid, pb.sid))
-		}
-		// deterministic: a second derivation by the same party gives the same bytes
-		if pa2, _ := o2oPayload(a, b.GetPublic(), ty); !pa.same(pa2) {
-			viol("space.o2o.deterministic.oracle", "two derivations by the same party differ")
-		}
-		c.try("o2o ctor-a", pa, "accept")
-		c.try("o2o ctor-b", pb, "accept")
-		// keys
-		rka, mka, ea := o2oKeys(a, pa)
-		rkb, mkb, eb := o2oKeys(b, pa)
-		if ea != nil || eb != nil {
-			viol("space.o2o.keys.oracle", fmt.Sprintf("a party cannot derive the space keys: %v / %v", ea, eb))
-		} else if !bytes.Equal(rka, rkb) || !bytes.Equal(mka, mkb) || len(rka) == 0 || len(mka) == 0 {
-			viol("space.o2o.keys.oracle", "the two parties derive different read / metadata keys")
-		}
-		if rkx, _, ex := o2oKeys(x, pa); ex == nil && len(rkx) > 0 {
-			viol("space.o2o.keys.oracle", "a third account obtained a read key for the 1-1 space")
-		}
-		r.Count("o2o.symmetric")
-		// other pairs derive something else (ids, roots and — when they can derive any — keys)
-		for _, name := range sortedKeys(map[string][2]crypto.PrivKey{"a-x": {a, x}, "x-b": {x, b}, "a-a": {a, a}}) {
-			alt := (map[string][2]crypto.PrivKey{"a-x": {a, x}, "x-b": {x, b}, "a-a": {a, a}})[name]
-			po, err := o2oPayload(alt[0], alt[1].GetPublic(), ty)
+		for _, pr := range pairs {
+			d := &deriv{who: pr[0], with: pr[1], ti: ti, pairKey: pairKeyOf(pr[0].raw, pr[1].raw)}
+			p, err := o2oPayload(pr[0].priv, pr[1].pub, ty)
 			if err != nil {
-				r.Count("o2o.other-pair.error")
+				if pr[1].priv != nil {
+					r.Violate(prop, "", "space.o2o.construct", desc(d)+": constructor failed: "+err.Error(), []string{desc(d)})
+				} else {
+					r.Count("o2o.related.constructor-error")
+				}
 				continue
 			}
-			if po.hid == pa.hid || po.aid == pa.aid || po.sid == pa.sid || bytes.Equal(po.raw, pa.raw) {
-				viol("space.o2o.injective.oracle", fmt.Sprintf("pair %s derives the same id / root as pair a-b (type %s)", name, ty))
+			d.p = p
+			d.owner = headerOf(p.raw).Identity
+			d.rk, d.mk, d.keyErr = o2oKeys(pr[0].priv, p)
+			ds = append(ds, d)
+			c.try("o2o ctor "+pr[0].label+"-"+pr[1].label, p, "accept")
+			if d.keyErr != nil || len(d.rk) == 0 || len(d.mk) == 0 {
+				r.Violate(prop, "", "space.o2o.keys.oracle", fmt.Sprintf("%s: the deriving party cannot read the space keys from its own root: %v", desc(d), d.keyErr), []string{desc(d)})
 			}
-			if rko, _, e := o2oKeys(alt[0], po); e == nil && bytes.Equal(rko, rka) {
-				viol("space.o2o.injective.oracle", fmt.Sprintf("pair %s derives the same read key as pair a-b", name))
+			// deterministic
+			if p2, err := o2oPayload(pr[0].priv, pr[1].pub, ty); err != nil || !p.same(p2) {
+				r.Violate(prop, "", "space.o2o.deterministic.oracle", desc(d)+": two derivations by the same party differ", []string{desc(d)})
 			}
-			r.Count("o2o.other-pair.differs")
-			// correspondence: symbolic terms
-			op := fmt.Sprintf("o2o %d %d %d", no(alt[0]), no(alt[1]), ti)
+			// correspondence: the symbolic term of this derivation
+			op := fmt.Sprintf("o2o %d %d %d %d %d", no(pr[0].raw), no(pr[1].raw), ti, montNo(pr[0].raw), montNo(pr[1].raw))
 			m := r.Ask(op)
-			if !bj.check(po.hid+"|"+po.aid+"|"+po.sid, m) {
-				r.Disagree(prop, "space.o2o.terms", "real outputs and symbolic terms are not in bijection", []string{op}, m, po.hid)
-			}
-		}
-		for _, pr := range [][2]crypto.PrivKey{{a, b}, {b, a}} {
-			op := fmt.Sprintf("o2o %d %d %d", no(pr[0]), no(pr[1]), ti)
-			m := r.Ask(op)
-			if !bj.check(pa.hid+"|"+pa.aid+"|"+pa.sid, m) {
-				r.Disagree(prop, "space.o2o.terms", "real outputs and symbolic terms are not in bijection", []string{op}, m, pa.hid)
+			if !bj.check(p.hid+"|"+p.aid+"|"+p.sid, m) {
+				r.Disagree(prop, "space.o2o.terms", "real outputs and symbolic terms are not in bijection", []string{desc(d), op}, m, p.hid)
 			}
 			r.Case(op, true)
 		}
 	}
-	// the type is part of the derived id (the roots are not type-specific)
-	p1, _ := o2oPayload(a, b.GetPublic(), spacepayloads.SpaceTypeOneToOne)
-	p2, _ := o2oPayload(a, b.GetPublic(), spacepayloads.SpaceTypeOneToOneAny)
-	if p1.hid == p2.hid {
-		viol("space.o2o.type.oracle", "the two 1-1 types derive the same space id")
+	// the property, stated on every two derivations: same unordered identity pair (and type) ⇒ identical
+	// id, header, roots and keys; a different pair ⇒ all of them differ; a different type ⇒ different id
+	for i, d := range ds {
+		for _, e := range ds[i+1:] {
+			ops := []string{desc(d), desc(e)}
+			switch {
+			case d.pairKey == e.pairKey && d.ti == e.ti:
+				if !d.p.same(e.p) {
+					r.Violate(prop, "", "space.o2o.symmetric.oracle", fmt.Sprintf("%s / %s: the two parties derive different payloads: ids %s / %s, acl %s / %s, settings %s / %s", desc(d), desc(e), d.p.hid, e.p.hid, d.p.aid, e.p.aid, d.p.sid, e.p.sid), ops)
+				}
+				if !bytes.Equal(d.rk, e.rk) || !bytes.Equal(d.mk, e.mk) {
+					r.Violate(prop, "", "space.o2o.keys.oracle", fmt.Sprintf("%s / %s: the two parties derive different read / metadata keys", desc(d), desc(e)), ops)
+				}
+				r.Count("o2o.same-pair.identical")
+			case d.pairKey == e.pairKey:
+				if d.p.hid == e.p.hid {
+					r.Violate(prop, "", "space.o2o.type.oracle", desc(d)+" / "+desc(e)+": the two 1-1 types derive the same space id", ops)
+				}
+			default:
+				var same []string
+				if d.ti == e.ti && d.p.hid == e.p.hid {
+					same = append(same, "space id")
+				}
+				if d.ti == e.ti && bytes.Equal(d.p.raw, e.p.raw) {
+					same = append(same, "header")
+				}
+				if d.p.aid == e.p.aid {
+					same = append(same, "ACL root")
+				}
+				if d.p.sid == e.p.sid {
+					same = append(same, "settings root")
+				}
+				if bytes.Equal(d.owner, e.owner) {
+					same = append(same, "joint owner key")
+				}
+				if len(d.rk) > 0 && bytes.Equal(d.rk, e.rk) {
+					same = append(same, "read key")
+				}
+				if len(d.mk) > 0 && bytes.Equal(d.mk, e.mk) {
+					same = append(same, "metadata key")
+				}
+				if len(same) > 0 {
+					r.Violate(prop, "", "space.o2o.injective.oracle", fmt.Sprintf("%s and %s are different identity pairs but derive the same %s", desc(d), desc(e), strings.Join(same, ", ")), ops)
+				}
+				r.Count("o2o.other-pair.differs")
+			}
+		}
 	}
-	if _, err := o2oPayload(a, b.GetPublic(), "anytype.space"); err == nil {
-		viol("space.o2o.type.oracle", "a non 1-1 type was accepted by the 1-1 constructor")
+	// a third account reads no key out of the a-b root
+	if len(ds) > 0 {
+		if rkx, _, ex := o2oKeys(x.priv, ds[0].p); ex == nil && len(rkx) > 0 {
+			r.Violate(prop, "", "space.o2o.keys.oracle", "a third account obtained a read key for the 1-1 space", []string{desc(ds[0])})
+		}
+	}
+	if _, err := o2oPayload(a.priv, b.pub, "anytype.space"); err == nil {
+		r.Violate(prop, "", "space.o2o.type.oracle", "a non 1-1 type was accepted by the 1-1 constructor", []string{"o2o"})
 	}
 }
 
@@ -215,7 +351,7 @@ func Run(r *corr.Run) {
 				c.crossSplices(d0, d2)
 			}
 		}
-		for k := 0; k < 3 && r.TimeLeft(); k++ {
+		for k := 0; k < 2 && r.TimeLeft(); k++ {
 			c.oneToOne(bj, keyNo)
 		}
 	}
